@@ -102,16 +102,20 @@ impl Ty {
     }
 
     /// number of print orders the type can take: product over unions of k! and structs of n!
+    /// Number of print orders of the type (saturating: 40-field structs have more than 2^64).
     pub fn orders(&self) -> u64 {
         fn fact(n: usize) -> u64 {
-            (1..=n as u64).product()
+            (1..=n as u64).fold(1u64, |a, b| a.saturating_mul(b))
+        }
+        fn prod(it: impl Iterator<Item = u64>) -> u64 {
+            it.fold(1u64, |a, b| a.saturating_mul(b))
         }
         match self {
             Ty::Arr(e) | Ty::Mut(e) => e.orders(),
-            Ty::Tup(ts) => ts.iter().map(Ty::orders).product(),
-            Ty::Union(ts) => fact(ts.len()) * ts.iter().map(Ty::orders).product::<u64>(),
-            Ty::Struct(fs) => fact(fs.len()) * fs.iter().map(|(_, t)| t.orders()).product::<u64>(),
-            Ty::Fun(ps, r) => ps.iter().map(Ty::orders).product::<u64>() * r.orders(),
+            Ty::Tup(ts) => prod(ts.iter().map(Ty::orders)),
+            Ty::Union(ts) => fact(ts.len()).saturating_mul(prod(ts.iter().map(Ty::orders))),
+            Ty::Struct(fs) => fact(fs.len()).saturating_mul(prod(fs.iter().map(|(_, t)| t.orders()))),
+            Ty::Fun(ps, r) => prod(ps.iter().map(Ty::orders)).saturating_mul(r.orders()),
             _ => 1,
         }
     }
